@@ -75,13 +75,13 @@ def part1(ctx):
         if o["key"].startswith("panic@"):
             ctx.count("position_code_panics")
         ctx.violation(o["key"], "%s [family %s, case %d]" % (o["what"], o.get("family"), o["idx"]),
-                      files={"input.txt": o.get("input", "")},
+                      files={"input.txt": o.get("input", "").encode("utf-8")},
                       cmd="%s pos --seed %d --count %d --only %d --out /tmp/x" % (
                           build.harness_bin("vh-lsp"), ctx.seed, count, o["idx"]))
     for d in r.deaths:
         ctx.violation("c20:child-death:rc=%s" % d["rc"],
                       "position harness child died (rc=%s) on case %s: %s" % (d["rc"], d["idx"], d["log"][-400:]),
-                      files={"input.txt": d["input"]})
+                      files={"input.txt": d["input"].encode("utf-8", "replace")})
     for s in r.timeouts:
         ctx.inconc("in-process shard %d hit the wall-clock watchdog" % s)
 
@@ -167,7 +167,7 @@ def _check_answers(doc, docs, srv, ids, res, notes):
         for key, what in out[:4]:
             files = {"publishDiagnostics.json": json.dumps(params, indent=1)}
             if d is not doc:
-                files["diagnosed-document.dora"] = d.text
+                files["diagnosed-document.dora"] = d.text.encode("utf-8")
             res.bad.append((key, what + " [uri %s]" % u, files))
 
 
@@ -207,7 +207,7 @@ def _workspace_symbols(srv, docs, ws):
                         "workspace symbol %r (%s): the document text at its range %s is %r" % (
                             sym.get("name"), kind, json.dumps(loc.get("range")), dd.text[r[0]:r[1]][:80])))
         for key, what in out[:3]:
-            ws.bad.append((key, what, {"input.dora": dd.text}))
+            ws.bad.append((key, what, {"symbol-document.dora": dd.text.encode("utf-8")}))
 
 
 def run_session(exe, sdir, cases, watchdog):
@@ -404,7 +404,7 @@ def part2(ctx, exe):
         if res.inconc:
             ctx.inconc(res.inconc)
         for key, what, files in res.bad:
-            fl = {"input.dora": c["text"]}
+            fl = {"input.dora": c["text"].encode("utf-8")}
             fl.update(files)
             ctx.violation(key, "%s [server part, family %s, case %s%s]" % (
                 what, c["fam"], c["idx"], (", base " + c["base"]) if c.get("base") else ""), files=fl,
